@@ -1,3 +1,701 @@
-pub fn run(ctx: vp_core::Ctx) -> ! {
-    ctx.machinery("engine not built yet")
+//! C37 — Block-quantized matmul equals dequantize-then-multiply.
+//!
+//! Subjects: `BlockQuantizedGemm` (Float mode on every ISA reachable through
+//! `dispatch`, Int8 mode on the ISA its own dispatch picks), `GemmExecutor`
+//! with `GemmInputB::BlockQuantized` for every f32 kernel, and the
+//! `MatMulNBits` operator through single-operator ONNX models.
+//! Oracle: dequantize in the harness ((code - 8) * scale), naive f64 matmul.
+//! Operands are chosen so that every product and partial sum is exactly
+//! representable (and the int8 activation quantisation is exact), so the
+//! comparison is equality; a second LHS family of ordinary floats is compared
+//! with 1e-5 relative tolerance in Float mode.
+
+use std::mem::MaybeUninit;
+
+use rten_gemm::{BlockQuantizedGemm, BlockQuantizedMatrix, ComputeMode, GemmInputA, GemmInputB, GemmUninitOptions};
+use rten_tensor::prelude::*;
+use rten_tensor::{Contiguous, NdTensor, NdTensorView, Tensor};
+use vp_core::{Ctx, Json, Samples, json};
+use vp_onnx::{Attr, Graph, Node, Tensor as OTensor, ValueInfo, dtype};
+
+use crate::util;
+
+#[derive(Clone, Copy, Debug, PartialEq)]
+enum Codes {
+    Const(u8),
+    Alt(u8, u8),
+    /// position dependent: (k*7 + col*3) mod 16
+    Ramp,
+}
+
+impl Codes {
+    fn at(self, col: usize, k: usize) -> u8 {
+        match self {
+            Codes::Const(c) => c,
+            Codes::Alt(a, b) => if k % 2 == 0 { a } else { b },
+            Codes::Ramp => ((k * 7 + col * 3) % 16) as u8,
+        }
+    }
+    fn json(self) -> Json {
+        match self {
+            Codes::Const(c) => json!({"const": c}),
+            Codes::Alt(a, b) => json!({"alternating": [a, b]}),
+            Codes::Ramp => json!("ramp"),
+        }
+    }
+    fn from_json(j: &Json) -> Codes {
+        if let Some(c) = j.get("const") {
+            Codes::Const(c.as_u64().unwrap_or(0) as u8)
+        } else if let Some(a) = j.get("alternating") {
+            Codes::Alt(a[0].as_u64().unwrap_or(0) as u8, a[1].as_u64().unwrap_or(0) as u8)
+        } else {
+            Codes::Ramp
+        }
+    }
+}
+
+fn code_fills(thorough: bool) -> Vec<Codes> {
+    let mut v: Vec<Codes> = (0..16).map(Codes::Const).collect();
+    for c in 0..16u8 {
+        v.push(Codes::Alt(c, 15 - c));
+        if thorough {
+            v.push(Codes::Alt(c, (c + 1) % 16));
+        }
+    }
+    v.push(Codes::Ramp);
+    v
+}
+
+#[derive(Clone, Copy, Debug, PartialEq)]
+enum Scales {
+    Uniform(f32),
+    /// 2^((col + block) mod 4 - 2)
+    Ramp,
+}
+
+impl Scales {
+    fn at(self, col: usize, block: usize) -> f32 {
+        match self {
+            Scales::Uniform(s) => s,
+            Scales::Ramp => [0.25f32, 0.5, 1.0, 2.0][(col + block) % 4],
+        }
+    }
+    fn json(self) -> Json {
+        match self {
+            Scales::Uniform(s) => json!(s),
+            Scales::Ramp => json!("ramp"),
+        }
+    }
+    fn from_json(j: &Json) -> Scales {
+        match j.as_f64() {
+            Some(s) => Scales::Uniform(s as f32),
+            None => Scales::Ramp,
+        }
+    }
+}
+
+#[derive(Clone, Copy, Debug, PartialEq)]
+enum Lhs {
+    /// integers in [-127,127] times `s` (power of two) with +-127 in every block: exactly int8-quantisable
+    ExactInts(f32),
+    /// ordinary floats
+    Floats,
+}
+
+impl Lhs {
+    fn at(self, b: usize, row: usize, k: usize, block_size: usize) -> f32 {
+        match self {
+            Lhs::ExactInts(s) => {
+                let pos = k % block_size;
+                let v: i32 = if pos == 0 {
+                    if (k / block_size + row) % 2 == 0 { 127 } else { -127 }
+                } else {
+                    ((k * 5 + row * 3 + b * 11) % 255) as i32 - 127
+                };
+                v as f32 * s
+            }
+            Lhs::Floats => (((k * 37 + row * 11 + b * 5) % 201) as f32 - 100.0) * 0.0137 + 0.001 * k as f32,
+        }
+    }
+    fn json(self) -> Json {
+        match self {
+            Lhs::ExactInts(s) => json!({"exact_ints_times": s}),
+            Lhs::Floats => json!("floats"),
+        }
+    }
+    fn from_json(j: &Json) -> Lhs {
+        match j.get("exact_ints_times") {
+            Some(s) => Lhs::ExactInts(s.as_f64().unwrap_or(1.0) as f32),
+            None => Lhs::Floats,
+        }
+    }
+}
+
+#[derive(Clone, Debug)]
+struct Case {
+    subject: String, // "BlockQuantizedGemm" | "GemmExecutor:<kernel>"
+    mode: &'static str, // Float | Int8
+    isa: String,
+    block_size: usize,
+    k_blocks: usize,
+    n: usize,
+    m: usize,
+    batch: usize,
+    codes: Codes,
+    scales: Scales,
+    lhs: Lhs,
+}
+
+impl Case {
+    fn json(&self) -> Json {
+        json!({"kind": "bq", "subject": self.subject, "mode": self.mode, "isa": self.isa, "block_size": self.block_size, "k_blocks": self.k_blocks,
+            "n": self.n, "m": self.m, "batch": self.batch, "codes": self.codes.json(), "scales": self.scales.json(), "lhs": self.lhs.json()})
+    }
+    fn from_json(j: &Json) -> Case {
+        Case {
+            subject: j["subject"].as_str().unwrap_or("BlockQuantizedGemm").into(),
+            mode: if j["mode"].as_str() == Some("Int8") { "Int8" } else { "Float" },
+            isa: j["isa"].as_str().unwrap_or("").into(),
+            block_size: j["block_size"].as_u64().unwrap_or(16) as usize,
+            k_blocks: j["k_blocks"].as_u64().unwrap_or(1) as usize,
+            n: j["n"].as_u64().unwrap_or(1) as usize,
+            m: j["m"].as_u64().unwrap_or(1) as usize,
+            batch: j["batch"].as_u64().unwrap_or(1) as usize,
+            codes: Codes::from_json(&j["codes"]),
+            scales: Scales::from_json(&j["scales"]),
+            lhs: Lhs::from_json(&j["lhs"]),
+        }
+    }
+    fn k(&self) -> usize {
+        self.block_size * self.k_blocks
+    }
+    fn signature(&self, what: &str) -> String {
+        let vec_path = if self.m == 1 { "vector-matrix" } else { "matrix-matrix" };
+        format!("{} mode={} ({vec_path}{}): {what}", self.subject, self.mode, if self.subject == "BlockQuantizedGemm" { format!(", isa {}", util::isa_class(&self.isa)) } else { String::new() })
+    }
+}
+
+struct Data {
+    lhs: Vec<f32>,    // [batch, m, k]
+    quant: Vec<u8>,   // [n, k_blocks, block_size/2]
+    scales: Vec<f32>, // [n, k_blocks]
+    expected: Vec<f64>, // [batch, m, n]
+}
+
+fn build(c: &Case) -> Data {
+    let k = c.k();
+    let mut lhs = Vec::with_capacity(c.batch * c.m * k);
+    for b in 0..c.batch {
+        for r in 0..c.m {
+            for kk in 0..k {
+                lhs.push(c.lhs.at(b, r, kk, c.block_size));
+            }
+        }
+    }
+    let bytes = c.block_size / 2;
+    let mut quant = vec![0u8; c.n * c.k_blocks * bytes];
+    let mut scales = vec![0f32; c.n * c.k_blocks];
+    for col in 0..c.n {
+        for blk in 0..c.k_blocks {
+            scales[col * c.k_blocks + blk] = c.scales.at(col, blk);
+            for e in 0..bytes {
+                let k0 = blk * c.block_size + 2 * e;
+                // element 2e in the low nibble, 2e+1 in the high nibble (MatMulNBits layout)
+                quant[(col * c.k_blocks + blk) * bytes + e] = (c.codes.at(col, k0) & 0x0f) | (c.codes.at(col, k0 + 1) << 4);
+            }
+        }
+    }
+    let mut expected = vec![0f64; c.batch * c.m * c.n];
+    for b in 0..c.batch {
+        for r in 0..c.m {
+            for col in 0..c.n {
+                let mut acc = 0f64;
+                for kk in 0..k {
+                    let w = (c.codes.at(col, kk) as i32 - 8) as f64 * c.scales.at(col, kk / c.block_size) as f64;
+                    acc += lhs[(b * c.m + r) * k + kk] as f64 * w;
+                }
+                expected[(b * c.m + r) * c.n + col] = acc;
+            }
+        }
+    }
+    Data { lhs, quant, scales, expected }
+}
+
+fn with_bqm<R>(c: &Case, d: &Data, f: impl FnOnce(BlockQuantizedMatrix<f32>) -> R) -> Result<R, String> {
+    let q = NdTensorView::from_data([c.n, c.k_blocks, c.block_size / 2], &d.quant[..]);
+    let s = NdTensorView::from_data([c.n, c.k_blocks], &d.scales[..]);
+    let qc = Contiguous::new(q).ok_or("quant not contiguous")?;
+    let sc = Contiguous::new(s).ok_or("scales not contiguous")?;
+    let bqm = BlockQuantizedMatrix::new(qc, sc, 4).map_err(|e| format!("{e:?}"))?;
+    Ok(f(bqm))
+}
+
+enum Verdict {
+    Exact,
+    Within(f64),
+    Mismatch(usize, f32, f64),
+    Error(String),
+    Panic(String),
+}
+
+fn judge(c: &Case, out: &[f32], exp: &[f64]) -> Verdict {
+    if out.len() != exp.len() {
+        return Verdict::Mismatch(usize::MAX, out.len() as f32, exp.len() as f64);
+    }
+    let exact_inputs = matches!(c.lhs, Lhs::ExactInts(_));
+    let mut worst = 0f64;
+    for i in 0..out.len() {
+        if exact_inputs {
+            if out[i] as f64 != exp[i] {
+                return Verdict::Mismatch(i, out[i], exp[i]);
+            }
+        } else {
+            // scale of the accumulation: sum of |terms| is bounded by k * max|lhs| * 8 * max scale
+            let denom = exp[i].abs().max(1.0);
+            let rel = (out[i] as f64 - exp[i]).abs() / denom;
+            if !(rel <= 1e-5) {
+                return Verdict::Mismatch(i, out[i], exp[i]);
+            }
+            worst = worst.max(rel);
+        }
+    }
+    if exact_inputs { Verdict::Exact } else { Verdict::Within(worst) }
+}
+
+fn run_bqgemm(c: &Case, d: &Data) -> Verdict {
+    let mode = if c.mode == "Int8" { ComputeMode::Int8 } else { ComputeMode::Float };
+    let lhs = NdTensorView::from_data([c.batch, c.m, c.k()], &d.lhs[..]);
+    let mut out = vec![MaybeUninit::new(f32::NAN); c.batch * c.m * c.n];
+    let r = vp_core::catch(|| with_bqm(c, d, |bqm| BlockQuantizedGemm::new().with_compute(mode).batched_gemm_uninit(&mut out, lhs, bqm).map(|o| o.to_vec()).map_err(|e| format!("{e:?}"))));
+    match r {
+        Err(p) => Verdict::Panic(p),
+        Ok(Err(e)) | Ok(Ok(Err(e))) => Verdict::Error(e),
+        Ok(Ok(Ok(o))) => judge(c, &o, &d.expected),
+    }
+}
+
+fn run_gemm_exec(c: &Case, d: &Data, exec: &rten_gemm::GemmExecutor<f32, f32, f32>) -> Verdict {
+    // [batch*m, k] x block-quantized [k, n]
+    let rows = c.batch * c.m;
+    let lhs = NdTensorView::from_data([rows, c.k()], &d.lhs[..]);
+    let mut out = vec![MaybeUninit::new(f32::NAN); rows * c.n];
+    let r = vp_core::catch(|| {
+        with_bqm(c, d, |bqm| {
+            exec.gemm_uninit(&mut out, GemmInputA::Unpacked(lhs), GemmInputB::BlockQuantized(bqm), GemmUninitOptions::default()).map(|o| o.to_vec()).map_err(|e| format!("{e:?}"))
+        })
+    });
+    match r {
+        Err(p) => Verdict::Panic(p),
+        Ok(Err(e)) | Ok(Ok(Err(e))) => Verdict::Error(e),
+        Ok(Ok(Ok(o))) => judge(c, &o, &d.expected),
+    }
+}
+
+#[derive(Default, Clone)]
+struct Tally {
+    cases: u64,
+    exact: u64,
+    within: u64,
+    errors: u64,
+    worst_rel: f64,
+}
+
+fn account(ctx: &Ctx, c: &Case, v: Verdict, t: &mut Tally, error_ok: bool) {
+    t.cases += 1;
+    match v {
+        Verdict::Exact => t.exact += 1,
+        Verdict::Within(w) => {
+            t.within += 1;
+            t.worst_rel = t.worst_rel.max(w);
+        }
+        Verdict::Mismatch(i, got, exp) => {
+            let what = if got.is_nan() { "output element is NaN (not written)" } else if matches!(c.lhs, Lhs::ExactInts(_)) { "differs from dequantize-then-multiply on exactly representable operands" } else { "differs from dequantize-then-multiply by more than 1e-5 relative" };
+            let (bm, col) = if i == usize::MAX { (0, 0) } else { (i / c.n, i % c.n) };
+            ctx.violation(c.signature(what), c.json(), format!("out[row {bm}, col {col}] = {got:e}, reference {exp:e}; case {}", c.json()));
+        }
+        Verdict::Error(e) => {
+            t.errors += 1;
+            if !error_ok {
+                ctx.violation(c.signature("returns an error for a supported configuration"), c.json(), e);
+            }
+        }
+        Verdict::Panic(p) => ctx.violation(c.signature("panics"), c.json(), p),
+    }
+}
+
+// ---------------------------------------------------------------------------
+// MatMulNBits operator
+// ---------------------------------------------------------------------------
+
+struct OpCase {
+    c: Case,
+    a_rank3: bool,
+    scales_1d: bool,
+    accuracy_level: i64,
+    b_initializer: bool,
+    extra: &'static str, // "" | "zero_points" | "k_not_multiple"
+}
+
+fn run_operator(ctx: &Ctx, oc: &OpCase, t: &mut Tally, rejected: &mut u64) {
+    let c = &oc.c;
+    let d = build(c);
+    let k = c.k();
+    let bytes = c.block_size / 2;
+    let mut g = Graph::new("mmnb");
+    let a_k = if oc.extra == "k_not_multiple" { k - 3 } else { k };
+    let a_dims: Vec<i64> = if oc.a_rank3 { vec![c.batch as i64, c.m as i64, a_k as i64] } else { vec![(c.batch * c.m) as i64, a_k as i64] };
+    g.inputs.push(ValueInfo::fixed("A", dtype::FLOAT, &a_dims));
+    let b_t = OTensor::u8("B", &[c.n as i64, c.k_blocks as i64, bytes as i64], &d.quant);
+    let s_dims: Vec<i64> = if oc.scales_1d { vec![(c.n * c.k_blocks) as i64] } else { vec![c.n as i64, c.k_blocks as i64] };
+    let s_t = OTensor::f32("S", &s_dims, &d.scales);
+    if oc.b_initializer {
+        g.initializers.push(b_t);
+    } else {
+        g.inputs.push(ValueInfo::fixed("B", dtype::UINT8, &[c.n as i64, c.k_blocks as i64, bytes as i64]));
+    }
+    g.initializers.push(s_t);
+    let mut ins = vec!["A", "B", "S"];
+    if oc.extra == "zero_points" {
+        let zp_bytes = (c.k_blocks + 1) / 2;
+        g.initializers.push(OTensor::u8("ZP", &[c.n as i64, zp_bytes as i64], &vec![0x88u8; c.n * zp_bytes]));
+        ins.push("ZP");
+    }
+    g.nodes.push(
+        Node::new("MatMulNBits", &ins, &["Y"])
+            .domain("com.microsoft")
+            .attr("K", Attr::Int(a_k as i64))
+            .attr("N", Attr::Int(c.n as i64))
+            .attr("bits", Attr::Int(4))
+            .attr("block_size", Attr::Int(c.block_size as i64))
+            .attr("accuracy_level", Attr::Int(oc.accuracy_level)),
+    );
+    g.outputs.push(ValueInfo::typed_no_shape("Y", dtype::FLOAT));
+    let case = {
+        let mut j = c.json();
+        j["kind"] = json!("MatMulNBits");
+        j["a_rank3"] = json!(oc.a_rank3);
+        j["scales_1d"] = json!(oc.scales_1d);
+        j["accuracy_level"] = json!(oc.accuracy_level);
+        j["b_initializer"] = json!(oc.b_initializer);
+        j["extra"] = json!(oc.extra);
+        j
+    };
+    t.cases += 1;
+    let sig = |what: &str| format!("MatMulNBits accuracy_level={} ({}{}): {what}", oc.accuracy_level, if c.m * (if oc.a_rank3 { 1 } else { c.batch }) == 1 { "vector-matrix" } else { "matrix-matrix" }, if oc.extra.is_empty() { String::new() } else { format!(", {}", oc.extra) });
+    let model = match rten::Model::load(vp_onnx::model_bytes(&g)) {
+        Ok(m) => m,
+        Err(e) => {
+            if oc.extra.is_empty() {
+                ctx.violation(sig("model does not load"), case, format!("{e}"));
+            } else {
+                *rejected += 1;
+            }
+            return;
+        }
+    };
+    let lhs_data: Vec<f32> = if oc.extra == "k_not_multiple" {
+        // drop the last 3 columns of every row
+        d.lhs.chunks(k).flat_map(|r| r[..a_k].iter().copied()).collect()
+    } else {
+        d.lhs.clone()
+    };
+    let a_shape: Vec<usize> = a_dims.iter().map(|x| *x as usize).collect();
+    let mut inputs = vec![(model.node_id("A").unwrap(), Tensor::from_data(&a_shape[..], lhs_data).into())];
+    if !oc.b_initializer {
+        inputs.push((model.node_id("B").unwrap(), Tensor::from_data(&[c.n, c.k_blocks, bytes][..], d.quant.clone()).into()));
+    }
+    let out_id = model.node_id("Y").unwrap();
+    match vp_core::catch(|| model.run(inputs, &[out_id], None)) {
+        Err(p) => {
+            ctx.violation(sig("panics"), case, p);
+        }
+        Ok(Err(e)) => {
+            if oc.extra.is_empty() {
+                ctx.violation(sig("run fails for a supported configuration"), case, format!("{e}"));
+            } else {
+                // requested-but-unsupported forms: an error is acceptable (not a wrong product)
+                *rejected += 1;
+            }
+        }
+        Ok(Ok(mut v)) => {
+            let y: Tensor<f32> = match v.remove(0).into_tensor() {
+                Some(y) => y,
+                None => {
+                    ctx.violation(sig("output is not an f32 tensor"), case, "");
+                    return;
+                }
+            };
+            if !oc.extra.is_empty() {
+                // accepted: then it must be right. zero point 8 everywhere equals the default; K-3 uses a truncated A
+                if oc.extra == "k_not_multiple" {
+                    ctx.observe("MatMulNBits accepted K not a multiple of block_size (result not checked against a reference here)");
+                    return;
+                }
+            }
+            let expect_shape: Vec<usize> = if oc.a_rank3 { vec![c.batch, c.m, c.n] } else { vec![c.batch * c.m, c.n] };
+            if y.shape() != &expect_shape[..] {
+                ctx.violation(sig("wrong output shape"), case, format!("{:?} expected {:?}", y.shape(), expect_shape));
+                return;
+            }
+            let out = y.to_vec();
+            match judge(c, &out, &d.expected) {
+                Verdict::Exact => t.exact += 1,
+                Verdict::Within(w) => {
+                    t.within += 1;
+                    t.worst_rel = t.worst_rel.max(w);
+                }
+                Verdict::Mismatch(i, got, exp) => {
+                    ctx.violation(sig(if got.is_nan() { "output element is NaN" } else { "differs from dequantize-then-multiply" }), case, format!("flat index {i}: got {got:e}, reference {exp:e}"));
+                }
+                _ => {}
+            }
+        }
+    }
+}
+
+fn replay(ctx: Ctx, path: &std::path::Path) -> ! {
+    let j = vp_core::read_replay_case(path);
+    let c = Case::from_json(&j);
+    let mut t = Tally::default();
+    if j["kind"].as_str() == Some("MatMulNBits") {
+        let oc = OpCase {
+            c,
+            a_rank3: j["a_rank3"].as_bool().unwrap_or(false),
+            scales_1d: j["scales_1d"].as_bool().unwrap_or(false),
+            accuracy_level: j["accuracy_level"].as_i64().unwrap_or(0),
+            b_initializer: j["b_initializer"].as_bool().unwrap_or(true),
+            extra: match j["extra"].as_str().unwrap_or("") {
+                "zero_points" => "zero_points",
+                "k_not_multiple" => "k_not_multiple",
+                _ => "",
+            },
+        };
+        let mut rej = 0;
+        run_operator(&ctx, &oc, &mut t, &mut rej);
+    } else {
+        let d = build(&c);
+        if c.subject == "BlockQuantizedGemm" {
+            let isas = util::available_isas();
+            if let Some(isa) = isas.iter().find(|i| i.name == c.isa) {
+                util::force(isa);
+            }
+            let v = run_bqgemm(&c, &d);
+            account(&ctx, &c, v, &mut t, false);
+            util::unforce();
+        } else {
+            let execs = rten_gemm::verif::f32_executors();
+            let name = c.subject.trim_start_matches("GemmExecutor:");
+            if let Some(e) = execs.iter().find(|e| e.kernel_name() == name) {
+                let v = run_gemm_exec(&c, &d, e);
+                account(&ctx, &c, v, &mut t, true);
+            }
+        }
+    }
+    println!("replay: cases={} exact={} within={} errors={}", t.cases, t.exact, t.within, t.errors);
+    ctx.finish("exploration", json!({"evaluations": 1, "distinct_nontrivial": 2, "rule": "replay", "samples": [j], "exhaustive": false}), vec![]);
+}
+
+pub fn run(ctx: Ctx) -> ! {
+    if let Some(p) = ctx.replay.clone() {
+        replay(ctx, &p);
+    }
+    let thorough = ctx.tier.is_thorough();
+    let samples = Samples::new(24);
+    let block_sizes: Vec<usize> = if thorough { vec![16, 32, 64, 128] } else { vec![16, 32, 64] };
+    let k_blocks: Vec<usize> = if thorough { vec![1, 2, 3, 4, 5, 8, 9, 17] } else { vec![1, 2, 3, 5, 9] };
+    let ns: Vec<usize> = vec![1, 2, 15, 16, 17, 33];
+    let ms: Vec<usize> = vec![1, 2, 3];
+    let batches: Vec<usize> = vec![1, 2, 3];
+    let codes = code_fills(thorough);
+    let scales = [Scales::Uniform(1.0), Scales::Uniform(0.5), Scales::Uniform(-2.0), Scales::Ramp];
+    let lhss = [Lhs::ExactInts(1.0), Lhs::ExactInts(0.5), Lhs::Floats];
+
+    // shape axis flattened for sharding
+    let mut shapes: Vec<(usize, usize, usize, usize, usize)> = Vec::new();
+    for &bs in &block_sizes {
+        for &kb in &k_blocks {
+            for &n in &ns {
+                for &m in &ms {
+                    for &b in &batches {
+                        shapes.push((bs, kb, n, m, b));
+                    }
+                }
+            }
+        }
+    }
+
+    // ---- BlockQuantizedGemm: Float mode on every ISA, Int8 mode on the native dot ISA ----
+    let isas = util::available_isas();
+    let mut configs: Vec<(Option<util::IsaSel>, &'static str)> = isas.iter().map(|i| (Some(*i), "Float")).collect();
+    configs.push((None, "Int8"));
+    let mut bq_tally = Tally::default();
+    let mut per_config = Vec::new();
+    for (isa, mode) in &configs {
+        match isa {
+            Some(i) => util::force(i),
+            None => util::unforce(),
+        }
+        let isa_name = isa.map(|i| i.name).unwrap_or("native(int8 dot dispatch)").to_string();
+        let parts = vp_core::par::map(shapes.len(), |si| {
+            let (bs, kb, n, m, b) = shapes[si];
+            let mut t = Tally::default();
+            for &cd in &codes {
+                for &sc in &scales {
+                    for &lhs in &lhss {
+                        // Int8 mode quantises the activations: only exactly quantisable rows are comparable
+                        if *mode == "Int8" && lhs == Lhs::Floats {
+                            continue;
+                        }
+                        let c = Case { subject: "BlockQuantizedGemm".into(), mode, isa: isa_name.clone(), block_size: bs, k_blocks: kb, n, m, batch: b, codes: cd, scales: sc, lhs };
+                        let d = build(&c);
+                        let v = run_bqgemm(&c, &d);
+                        account(&ctx, &c, v, &mut t, false);
+                    }
+                }
+            }
+            t
+        });
+        let mut t = Tally::default();
+        for p in parts {
+            t.cases += p.cases;
+            t.exact += p.exact;
+            t.within += p.within;
+            t.errors += p.errors;
+            t.worst_rel = t.worst_rel.max(p.worst_rel);
+        }
+        eprintln!("C37 BlockQuantizedGemm mode={mode} isa={isa_name} cases={} exact={} within={} worst_rel={:e} t={:.1}s", t.cases, t.exact, t.within, t.worst_rel, ctx.elapsed_s());
+        per_config.push(json!({"subject": "BlockQuantizedGemm", "mode": mode, "isa": isa_name, "cases": t.cases, "bit_exact": t.exact, "within_1e-5": t.within, "worst_relative_error_float_lhs": t.worst_rel}));
+        bq_tally.cases += t.cases;
+        bq_tally.exact += t.exact;
+        bq_tally.within += t.within;
+    }
+    util::unforce();
+
+    // ---- GemmExecutor with GemmInputB::BlockQuantized, every f32 kernel ----
+    let kernel_names: Vec<String> = rten_gemm::verif::f32_executors().iter().map(|e| e.kernel_name().to_string()).collect();
+    let mut ge_tally = Tally::default();
+    for (ki, kname) in kernel_names.iter().enumerate() {
+        let parts = vp_core::par::map(shapes.len(), |si| {
+            let (bs, kb, n, m, b) = shapes[si];
+            let execs = rten_gemm::verif::f32_executors();
+            let exec = &execs[ki];
+            let mut t = Tally::default();
+            for &cd in &codes {
+                // a thinner slice of the value axes: the packing path does not depend on the activation values
+                for &sc in &[Scales::Uniform(-2.0), Scales::Ramp] {
+                    for &lhs in &[Lhs::ExactInts(1.0), Lhs::Floats] {
+                        let c = Case { subject: format!("GemmExecutor:{kname}"), mode: "Float", isa: String::new(), block_size: bs, k_blocks: kb, n, m, batch: b, codes: cd, scales: sc, lhs };
+                        let d = build(&c);
+                        let v = run_gemm_exec(&c, &d, exec);
+                        // a kernel may not support block-quantized input: an error is not a wrong product
+                        account(&ctx, &c, v, &mut t, true);
+                    }
+                }
+            }
+            t
+        });
+        let mut t = Tally::default();
+        for p in parts {
+            t.cases += p.cases;
+            t.exact += p.exact;
+            t.within += p.within;
+            t.errors += p.errors;
+            t.worst_rel = t.worst_rel.max(p.worst_rel);
+        }
+        eprintln!("C37 GemmExecutor kernel={kname} cases={} exact={} within={} errors={} t={:.1}s", t.cases, t.exact, t.within, t.errors, ctx.elapsed_s());
+        if t.errors == t.cases {
+            ctx.observe(&format!("kernel {kname} rejects block-quantized RHS input (error, not a wrong product)"));
+        }
+        per_config.push(json!({"subject": format!("GemmExecutor:{kname}"), "cases": t.cases, "bit_exact": t.exact, "within_1e-5": t.within, "rejected_with_error": t.errors, "worst_relative_error_float_lhs": t.worst_rel}));
+        ge_tally.cases += t.cases;
+        ge_tally.exact += t.exact;
+        ge_tally.within += t.within;
+        ge_tally.errors += t.errors;
+    }
+
+    // ---- MatMulNBits operator ----
+    let mut op_tally = Tally::default();
+    let mut rejected = 0u64;
+    {
+        let op_codes = [Codes::Const(0), Codes::Const(15), Codes::Alt(0, 15), Codes::Alt(7, 8), Codes::Ramp];
+        let op_shapes: Vec<(usize, usize, usize, usize, usize)> = shapes.iter().copied().filter(|(bs, kb, n, _m, b)| (*kb <= 3 || *kb == 9) && [1usize, 16, 17, 33].contains(n) && *b <= 2 && (thorough || *bs != 64 || *kb != 9)).collect();
+        let list: Vec<OpCase> = op_shapes
+            .iter()
+            .flat_map(|&(bs, kb, n, m, b)| {
+                let mut v = Vec::new();
+                for cd in op_codes {
+                    for (sc, lhs) in [(Scales::Ramp, Lhs::ExactInts(1.0)), (Scales::Uniform(0.5), Lhs::Floats), (Scales::Uniform(-2.0), Lhs::ExactInts(0.5))] {
+                        for accuracy_level in [0i64, 4] {
+                            if accuracy_level == 4 && lhs == Lhs::Floats {
+                                continue;
+                            }
+                            let variant = (bs / 16 + kb + n + m + b) % 4;
+                            v.push(OpCase {
+                                c: Case { subject: "MatMulNBits".into(), mode: if accuracy_level == 4 { "Int8" } else { "Float" }, isa: "native".into(), block_size: bs, k_blocks: kb, n, m, batch: b, codes: cd, scales: sc, lhs },
+                                a_rank3: variant % 2 == 0,
+                                scales_1d: variant == 1,
+                                accuracy_level,
+                                b_initializer: variant != 3,
+                                extra: "",
+                            });
+                        }
+                    }
+                }
+                // requested-but-unsupported forms
+                for extra in ["zero_points", "k_not_multiple"] {
+                    v.push(OpCase {
+                        c: Case { subject: "MatMulNBits".into(), mode: "Float", isa: "native".into(), block_size: bs, k_blocks: kb, n, m, batch: b, codes: Codes::Ramp, scales: Scales::Ramp, lhs: Lhs::ExactInts(1.0) },
+                        a_rank3: false,
+                        scales_1d: false,
+                        accuracy_level: 0,
+                        b_initializer: true,
+                        extra,
+                    });
+                }
+                v
+            })
+            .collect();
+        for oc in &list {
+            run_operator(&ctx, oc, &mut op_tally, &mut rejected);
+        }
+        eprintln!("C37 MatMulNBits cases={} exact={} within={} rejected_forms={} t={:.1}s", op_tally.cases, op_tally.exact, op_tally.within, rejected, ctx.elapsed_s());
+        if rejected > 0 {
+            ctx.observe_n("MatMulNBits: explicit zero_points input / K not a multiple of block_size rejected with an error (acceptable: not a wrong product)", rejected);
+        }
+        samples.push(|| json!({"operator": "MatMulNBits", "cases": op_tally.cases, "bit_exact": op_tally.exact, "within_1e-5": op_tally.within, "rejected_forms": rejected}));
+    }
+
+    let reached = bq_tally.exact + bq_tally.within + ge_tally.exact + ge_tally.within + op_tally.exact + op_tally.within;
+    if bq_tally.exact == 0 || op_tally.exact + op_tally.within == 0 {
+        ctx.machinery("C37 vacuous: a subject never reached the oracle");
+    }
+    for p in &per_config {
+        samples.push(|| p.clone());
+    }
+    let total = bq_tally.cases + ge_tally.cases + op_tally.cases;
+    println!("C37 summary: cases={} reached_oracle={} (BlockQuantizedGemm {} GemmExecutor {} MatMulNBits {})", total, reached, bq_tally.cases, ge_tally.cases, op_tally.cases);
+    let coverage = json!({
+        "evaluations": total,
+        "distinct_nontrivial": reached,
+        "rule": "every (block size, k-blocks, n, m, batch) x every 4-bit code fill (16 constants, alternating pairs, position ramp) x scales {1, 0.5, -2, per-block ramp} x LHS {exactly int8-quantisable integers x 1, x 0.5; floats}: BlockQuantizedGemm Float mode on every ISA + Int8 mode; GemmExecutor+BlockQuantized for every f32 kernel; MatMulNBits models (accuracy_level 0/4, rank-2/3 A, 1-D/2-D scales, B initializer/input, zero_points and ragged K requested)",
+        "exhaustive": true,
+        "axes": {
+            "block_sizes": block_sizes, "k_blocks": k_blocks, "n": ns, "m": ms, "batch": batches,
+            "code_fills": codes.len(), "scales": ["1", "0.5", "-2", "ramp 2^((col+block)%4-2)"], "lhs": ["exact ints x1", "exact ints x0.5", "floats"],
+            "isas_float_mode": isas.iter().map(|i| i.name).collect::<Vec<_>>(),
+            "f32_kernels": kernel_names,
+        },
+        "per_subject": per_config,
+        "samples": samples.take(),
+    });
+    ctx.finish(
+        "exploration",
+        coverage,
+        vec![
+            "exact-operand families: LHS integers in [-127,127] (x power of two) with +-127 in every block, power-of-two scales: every product and partial sum is exactly representable and the int8 activation quantisation is lossless, so equality is the oracle in both compute modes".into(),
+            "float LHS family: Float mode only, |got-ref| <= 1e-5 * max(1,|ref|); Int8 mode is lossy by design for such inputs and is not compared there".into(),
+            "Int8 compute mode runs on the ISA chosen by SimdInt8DotOp::dispatch (AVX-512 VNNI here); there is no hook to force the other int8-dot ISAs".into(),
+            "zero point is the fixed 8 of 4-bit MatMulNBits; explicit zero_points and K not a multiple of the block size are requested and must either be rejected or be correct".into(),
+        ],
+    );
 }
